@@ -189,7 +189,7 @@ func checkC09(tier string) *Report {
 		r, d := run(w0, w0.Ctx, p)
 		base[p.Label] = obs{r.Ack, d}
 	}
-	x := &Explorer{Rep: rep, Prefix: alpha, Depth: -1, Revisit: true}
+	x := &Explorer{Rep: rep, Prefix: alpha, Depth: -1, Revisit: true, RecordGraph: true}
 	x.ModelInit = func(w *World) any {
 		return c09Model{A: map[string]bool{}, P: pauseModel{P: map[string]bool{}, CC: map[string]bool{}}}
 	}
@@ -323,6 +323,12 @@ func checkC09(tier string) *Report {
 		}
 	}
 	x.RunOn(worlds)
+	x.PrepWorld = func(w *World) error {
+		in, err := NewInstr(w, true)
+		ins[w] = in
+		return err
+	}
+	x.Tour(len(worlds))
 	wantStates := int64(4)
 	if tier == "thorough" {
 		wantStates = 256
@@ -444,7 +450,7 @@ func checkC18(tier string) *Report {
 			probes = append(probes, probe{fmt.Sprintf("%s passthrough=%dB", f, n), n, NewPkt("channel-0", denomUSDC, "1000", w0.Orb.String(), MemoJSON(f)), f.Kind})
 		}
 	}
-	x := &Explorer{Rep: rep, Prefix: alpha, Depth: -1, Revisit: true}
+	x := &Explorer{Rep: rep, Prefix: alpha, Depth: -1, Revisit: true, RecordGraph: true}
 	x.ModelInit = func(w *World) any { return uint32(0) }
 	x.ModelStep = func(w *World, model any, op Op, res OpResult, pre, post sdk.Context) any {
 		if !res.Succeeded() {
@@ -555,6 +561,12 @@ func checkC18(tier string) *Report {
 		}
 	}
 	x.RunOn(worlds)
+	x.PrepWorld = func(w *World) error {
+		in, err := NewInstr(w, false)
+		ins[w] = in
+		return err
+	}
+	x.Tour(len(worlds))
 	must := 0
 	for _, v := range vals {
 		if c18MustBeSettable(v) {
